@@ -52,10 +52,14 @@ pub struct PushCase {
     /// 0 push subscription, 1 pull-only control subscription on the same topic,
     /// 2 push subscription deleted after `delete_after_ms`,
     /// 3 push subscription whose topic and then itself are deleted before anything is
-    ///   published; both names are then re-created, the subscription WITHOUT a push endpoint
+    ///   published; both names are then re-created, the subscription WITHOUT a push endpoint,
+    /// 4 a second push subscription (own path, own script) on the topic of the previous case
     pub kind: u8,
     pub delete_after_ms: u32,
     pub payload: crate::case::Payload,
+    /// script for every second message of this subscription (by order of first arrival)
+    #[serde(default)]
+    pub script_odd: Option<Vec<Beh>>,
 }
 
 #[derive(Clone, Debug)]
@@ -75,6 +79,8 @@ struct Hit {
 struct EndpointState {
     t0: Instant,
     scripts: HashMap<String, Vec<Beh>>,
+    scripts_odd: HashMap<String, Vec<Beh>>,
+    order: HashMap<String, Vec<String>>,
     attempts: HashMap<(String, String), usize>,
     hits: Vec<Hit>,
 }
@@ -161,7 +167,21 @@ async fn serve_conn(mut sock: tokio::net::TcpStream, st: Arc<Mutex<EndpointState
             let key = (path.clone(), msg_id.clone().unwrap_or_default());
             let n = *g.attempts.get(&key).unwrap_or(&0);
             g.attempts.insert(key, n + 1);
-            let script = g.scripts.get(&path).cloned().unwrap_or_else(|| vec![Beh::Status(200)]);
+            let mid = msg_id.clone().unwrap_or_default();
+            let ord = {
+                let o = g.order.entry(path.clone()).or_default();
+                match o.iter().position(|x| *x == mid) {
+                    Some(p) => p,
+                    None => {
+                        o.push(mid.clone());
+                        o.len() - 1
+                    }
+                }
+            };
+            let script = match (ord % 2 == 1, g.scripts_odd.get(&path)) {
+                (true, Some(s)) => s.clone(),
+                _ => g.scripts.get(&path).cloned().unwrap_or_else(|| vec![Beh::Status(200)]),
+            };
             let beh = script[n.min(script.len() - 1)].clone();
             let t_ms = g.t0.elapsed().as_millis() as u64;
             g.hits.push(Hit { t_ms, path: path.clone(), subscription, msg_id, msg_id_dupe, data, attrs, json_ok: parsed.is_some(), beh: beh.clone(), answered_ms: None });
@@ -228,10 +248,15 @@ pub fn run_batch(cases: &[PushCase], secs: u64) -> BatchOut {
     let out = rt.block_on(async move {
         let listener = tokio::net::TcpListener::bind("127.0.0.1:0").await.unwrap();
         let port = listener.local_addr().unwrap().port();
-        let st = Arc::new(Mutex::new(EndpointState { t0: Instant::now(), scripts: HashMap::new(), attempts: HashMap::new(), hits: Vec::new() }));
+        let st = Arc::new(Mutex::new(EndpointState { t0: Instant::now(), scripts: HashMap::new(), scripts_odd: HashMap::new(), order: HashMap::new(), attempts: HashMap::new(), hits: Vec::new() }));
         for (i, c) in cases.iter().enumerate() {
             st.lock().unwrap().scripts.insert(format!("/c{}", i), c.script.clone());
+            if let Some(o) = &c.script_odd {
+                st.lock().unwrap().scripts_odd.insert(format!("/c{}", i), o.clone());
+            }
         }
+        // kind 4 shares the topic of the case before it
+        let topic_idx = |i: usize| if cases[i].kind == 4 && i > 0 { i - 1 } else { i };
         {
             let st = st.clone();
             tokio::spawn(async move {
@@ -260,10 +285,12 @@ pub fn run_batch(cases: &[PushCase], secs: u64) -> BatchOut {
         let mut published: Vec<Vec<Pub>> = Vec::new();
         let mut mkey = 0u64;
         for (i, c) in cases.iter().enumerate() {
-            let topic = format!("projects/pp/topics/top{}", i);
+            let topic = format!("projects/pp/topics/top{}", topic_idx(i));
             let sub = format!("projects/pp/subscriptions/sub{}", i);
-            if let Err(e) = p.create_topic(Topic { name: topic.clone(), ..Default::default() }).await {
-                v("setup_failed", &["C14"], format!("CreateTopic: {}", e));
+            if topic_idx(i) == i {
+                if let Err(e) = p.create_topic(Topic { name: topic.clone(), ..Default::default() }).await {
+                    v("setup_failed", &["C14"], format!("CreateTopic: {}", e));
+                }
             }
             let push_config = if c.kind == 1 { None } else { Some(PushConfig { push_endpoint: format!("http://127.0.0.1:{}/c{}", port, i), ..Default::default() }) };
             if let Err(e) = s.create_subscription(Subscription { name: sub.clone(), topic: topic.clone(), ack_deadline_seconds: 10, push_config, ..Default::default() }).await {
@@ -291,7 +318,13 @@ pub fn run_batch(cases: &[PushCase], secs: u64) -> BatchOut {
             let topic = format!("projects/pp/topics/top{}", i);
             let mut msgs = Vec::new();
             let mut recs = Vec::new();
-            for _ in 0..c.n_msgs.max(1) {
+            if c.kind == 4 && i > 0 {
+                // same messages as the sibling subscription
+                let prev: Vec<Pub> = published[i - 1].iter().map(|p| Pub { id: p.id.clone(), data: p.data.clone(), attrs: p.attrs.clone(), t_ms: p.t_ms }).collect();
+                published.push(prev);
+                continue;
+            }
+            for _ in 0..c.n_msgs {
                 mkey += 1;
                 let (data, attrs, _) = make_payload(MARK | mkey, &c.payload);
                 msgs.push(PubsubMessage { data: data.clone(), attributes: attrs.iter().cloned().collect(), ..Default::default() });
@@ -396,6 +429,18 @@ pub fn run_batch(cases: &[PushCase], secs: u64) -> BatchOut {
                 }
                 // retry / stop rules along the attempts
                 let del = deleted_at.get(&i).cloned();
+                // exclusive lease: no second POST while an earlier one is unanswered and young
+                // (the POST follows the start of its lease by far less than 1.5 s)
+                for (n, h) in hs.iter().enumerate() {
+                    if let Some(nx) = hs.get(n + 1) {
+                        let unanswered = h.answered_ms.map(|a| a > nx.t_ms).unwrap_or(true);
+                        let silent = matches!(h.beh, Beh::Delayed200(_) | Beh::Stall | Beh::Interim(_));
+                        if silent && unanswered && nx.t_ms < h.t_ms + 8_500 {
+                            v("pushed_while_leased", &["C03"], format!("message {} of {} was POSTed at {} ms and again at {} ms although the first POST was still unanswered and its ack deadline had not elapsed", pb.id, sub, h.t_ms, nx.t_ms));
+                            break;
+                        }
+                    }
+                }
                 for (n, h) in hs.iter().enumerate() {
                     let next = hs.get(n + 1);
                     if h.beh.accepting() {
@@ -500,7 +545,7 @@ pub fn build_cases(tier: Tier, seed: u64, batch: u64) -> Vec<PushCase> {
     };
     // every single behaviour, then "failure then accept", then pairs
     for b in ALPHABET {
-        cases.push(PushCase { script: vec![b.clone()], n_msgs: 1 + (next() % 2) as u8, kind: 0, delete_after_ms: 0, payload: payload(next()) });
+        cases.push(PushCase { script: vec![b.clone()], n_msgs: 1 + (next() % 2) as u8, kind: 0, delete_after_ms: 0, payload: payload(next()), script_odd: None });
     }
     let all_pairs: Vec<(Beh, Beh)> = ALPHABET.iter().flat_map(|a| ALPHABET.iter().map(move |b| (a.clone(), b.clone()))).collect();
     let want = match tier {
@@ -508,7 +553,7 @@ pub fn build_cases(tier: Tier, seed: u64, batch: u64) -> Vec<PushCase> {
         Tier::Thorough => 150usize,
     };
     let mut k = (batch as usize * 97) % all_pairs.len();
-    while cases.len() < want - 10 {
+    while cases.len() < want - 16 {
         let (a, b) = all_pairs[k % all_pairs.len()].clone();
         k += match tier {
             Tier::Quick => 7,
@@ -521,15 +566,23 @@ pub fn build_cases(tier: Tier, seed: u64, batch: u64) -> Vec<PushCase> {
         if next() % 4 == 0 {
             script.insert(1, ALPHABET[(next() % ALPHABET.len() as u64) as usize].clone());
         }
-        cases.push(PushCase { script, n_msgs: 1 + (next() % 3) as u8, kind: 0, delete_after_ms: 0, payload: payload(next()) });
+        cases.push(PushCase { script, n_msgs: 1 + (next() % 3) as u8, kind: 0, delete_after_ms: 0, payload: payload(next()), script_odd: None });
     }
+    // one round with many messages and an endpoint that is slower than the pacing between
+    // dispatches, two subscriptions on one topic, and mixed fates inside one round
+    cases.push(PushCase { script: vec![Beh::Delayed200(300)], n_msgs: 60, kind: 0, delete_after_ms: 0, payload: plain(), script_odd: None });
+    cases.push(PushCase { script: vec![Beh::Delayed200(1_500)], n_msgs: 60, kind: 0, delete_after_ms: 0, payload: plain(), script_odd: None });
+    cases.push(PushCase { script: vec![Beh::Status(200)], n_msgs: 2, kind: 0, delete_after_ms: 0, payload: payload(next()), script_odd: None });
+    cases.push(PushCase { script: vec![Beh::Status(500), Beh::Status(204)], n_msgs: 0, kind: 4, delete_after_ms: 0, payload: plain(), script_odd: None });
+    cases.push(PushCase { script: vec![Beh::Status(200)], n_msgs: 2, kind: 0, delete_after_ms: 0, payload: plain(), script_odd: Some(vec![Beh::Stall, Beh::Status(200)]) });
+    cases.push(PushCase { script: vec![Beh::Status(202)], n_msgs: 3, kind: 0, delete_after_ms: 0, payload: plain(), script_odd: Some(vec![Beh::Delayed200(300)]) });
     // pull-only controls and deletions
     for j in 0..4 {
         if j < 2 {
-            cases.push(PushCase { script: vec![Beh::Status(200)], n_msgs: 2, kind: 3, delete_after_ms: 0, payload: plain() });
+            cases.push(PushCase { script: vec![Beh::Status(200)], n_msgs: 2, kind: 3, delete_after_ms: 0, payload: plain(), script_odd: None });
         }
-        cases.push(PushCase { script: vec![Beh::Status(200)], n_msgs: 2, kind: 1, delete_after_ms: 0, payload: plain() });
-        cases.push(PushCase { script: vec![Beh::Status(500)], n_msgs: 2, kind: 2, delete_after_ms: 300 + j * 900, payload: plain() });
+        cases.push(PushCase { script: vec![Beh::Status(200)], n_msgs: 2, kind: 1, delete_after_ms: 0, payload: plain(), script_odd: None });
+        cases.push(PushCase { script: vec![Beh::Status(500)], n_msgs: 2, kind: 2, delete_after_ms: 300 + j * 900, payload: plain(), script_odd: None });
     }
     cases
 }
@@ -590,7 +643,7 @@ pub fn push_check(ctx: &WorkerCtx, out: &mut WorkerOut, batches: u64) {
                 let idx: String = f.detail[pos + "subscriptions/sub".len()..].chars().take_while(|c| c.is_ascii_digit()).collect();
                 if let Ok(i) = idx.parse::<usize>() {
                     if i < cases.len() {
-                        let single = vec![cases[i].clone()];
+                        let single = if cases[i].kind == 4 && i > 0 { vec![cases[i - 1].clone(), cases[i].clone()] } else { vec![cases[i].clone()] };
                         let r = run_batch(&single, 19);
                         if let Some(v) = r.violations.iter().find(|v| v.rule == f.rule) {
                             out.failure = Some(Failure { rule: v.rule.clone(), detail: v.detail.clone(), engine: "push".into(), input: json!({"engine":"push","cases":single}), trace: json!(null) });
